@@ -183,6 +183,7 @@ type Fault struct {
 	Arg          int
 	Fired        bool
 	FiredStep    int
+	FiredAt      time.Time // fake time at which it fired
 	Target       string
 	Note         string
 }
@@ -842,6 +843,7 @@ func (s *Sim) fireFaults() bool {
 		if s.applyFault(f) {
 			f.Fired = true
 			f.FiredStep = s.Step
+			f.FiredAt = time.Now()
 			s.Stats["fault."+f.Kind]++
 			s.logf("step %d fault %s target=%s", s.Step, f.Kind, f.Target)
 			return true
